@@ -136,3 +136,18 @@ OPTCALL_EXCEPTIONS = {
     "widget.frame.Frame.get_cursor_coords:self.body.get_cursor_coords((maxcol, maxrow - hrows - frows))": _FRAME_FOCUS,
     "widget.frame.Frame.get_cursor_coords:self.footer.get_cursor_coords((maxcol,))": _FRAME_FOCUS,
 }
+
+# LOOPFRESH: locals that describe the current item of a loop and must be defined anew in every iteration.
+# "<function>" -> (properties, variables, why it matters)
+LOOPFRESH_TABLE = {
+    "canvas.CompositeCanvas.content_delta": (("C02", "C04"), ("row",), "the 'whole shard unchanged' memo of one shard would mark every later shard as unchanged"),
+    "canvas.TextCanvas.content": (("C02", "C01"), ("row", "i"), "a row would start with the runs of the previous row"),
+    "canvas.shards_trim_sides": (("C02",), ("new_cviews", "col"), "each shard's cviews are clipped by columns counted from that shard's left edge"),
+    "canvas.shards_trim_rows": (("C02",), ("new_cviews",), "a shard would inherit the cviews of the shard above"),
+    "canvas.shards_join": (("C02",), ("new_cviews",), "a joined shard would inherit the cviews of the shard above"),
+    "canvas.apply_text_layout": (("C03", "C17", "C01"), ("line", "linea", "linec"), "text, attribute and charset runs of a line would start with those of the previous line"),
+    "text_layout.StandardTextLayout._calculate_trimmed_segments": (("C03", "C01"), ("line", "pad_right", "trimmed", "end_off"), "the padding / ellipsis decision of an earlier, trimmed line would be applied to a later line that fits"),
+    "text_layout.calc_coords": (("C10", "C03"), ("x",), "the column of a position is counted from the start of its own line"),
+    "display.html_fragment.HtmlGenerator.draw_screen": (("C04",), ("col",), "the cursor column is matched against the column within the cursor's row"),
+    "display._raw_display_base.Screen.draw_screen": (("C04",), ("whitespace_at_end",), "the erase-to-end-of-line shortcut of one row would be applied to the next"),
+}
